@@ -135,7 +135,8 @@ def evaluate(case) -> Result:
         for ev in case["events"]:
             kind = ev[0]
             if kind == "SEND":
-                _, ai, realm, timeout, own_hbh = ev
+                _, ai, realm, timeout, own_hbh = ev[:5]
+                dest = ev[5] if len(ev) > 5 else None
                 ai = ai % len(case["apps"])
                 app = w.apps[ai]
                 msg = CreditControlRequest()
@@ -147,6 +148,11 @@ def evaluate(case) -> Result:
                 msg.service_context_id = "x"
                 msg.cc_request_type = 1
                 msg.cc_request_number = 0
+                if dest is not None:
+                    # Destination-Host names the final recipient of the request; which directly connected peer is
+                    # eligible for it is a matter of the configuration alone
+                    msg.destination_host = (f"peer{dest % (len(case['peers']) + 1) + 1}.example").encode()
+                    res.classes.append("destination-host:" + ("a-peer" if dest % (len(case["peers"]) + 1) < len(case["peers"]) else "not-a-peer"))
                 e2e_next[0] += 1
                 msg.header.end_to_end_identifier = e2e_next[0]
                 R_ = realm if realm is not None else NODE_REALM
@@ -299,7 +305,7 @@ def cases_strategy(draw):
                      "kind": draw(st.sampled_from(["basic", "threading"]))})
     send = st.tuples(st.just("SEND"), st.integers(0, 2),
                      st.sampled_from(["example", "example", "r2.example", "extra.example", "nowhere.example"]),
-                     st.sampled_from([2, 5, 30]), st.booleans())
+                     st.sampled_from([2, 5, 30]), st.booleans(), st.one_of(st.none(), st.none(), st.integers(0, 4)))
     ans = st.tuples(st.just("ANSWER"), st.integers(0, 5), st.sampled_from(["good", "good", "good", "wrong-e2e", "unknown-hbh"]))
     adv = st.tuples(st.just("ADV"), st.sampled_from([1, 3, 6]))
     events = draw(st.lists(st.one_of(send, send, ans, ans, adv), min_size=1, max_size=14))
@@ -756,7 +762,7 @@ def run(tier, scale=1.0):
     rec = Recorder(PID)
     for d in hyp.pool_run(shard_main, (tier, scale)):
         rec.merge(d)
-    required = {"answer-vs-timeout": 1, "slow-selection:chosen-lost:True": 1, "slow-selection:outcome:sent": 1, "slow-selection:outcome:not-routable": 1,
+    required = {"destination-host:a-peer": 1, "destination-host:not-a-peer": 1, "answer-vs-timeout": 1, "slow-selection:chosen-lost:True": 1, "slow-selection:outcome:sent": 1, "slow-selection:outcome:not-routable": 1,
                 "slow-selection:redialled:True": 1, "send-vs-loss": 1, "equal-hop-by-hop-two-connections": 1, "schedule-exploration": 1, "senders:3": 1, "npeers:4": 1, "napps:3": 1, "select:first": 1, "select:None": 1, "state:waiting-dwa": 1,
                 "state:disconnecting": 1, "state:disconnecting-late-dwa": 1, "state:awaiting": 1, "state:closed": 1, "sends:4": 1}
     return finish(rec, tier=tier, level="exploration", rule=RULE, assumptions=ASSUME, t0=t0,
